@@ -18,7 +18,73 @@ THEOREMS = ["Lbfgsb.C09.active_fixed", "Lbfgsb.C09.xbar_in_box", "Lbfgsb.C09.non
 MODULES = ["LbfgsbVerif.Props.C09"]
 
 
+def dense_from_pairs(S: np.ndarray, Y: np.ndarray) -> np.ndarray:
+    """dense BFGS recursion from theta I, theta = y.y / s.y of the newest pair (columns of S, Y = pairs, oldest first)"""
+    n, m = S.shape
+    s, y = S[:, -1], Y[:, -1]
+    B = float(y @ y) / float(s @ y) * np.eye(n)
+    for j in range(m):
+        s, y = S[:, j], Y[:, j]
+        Bs = B @ s
+        B = B - np.outer(Bs, Bs) / float(s @ Bs) + np.outer(y, y) / float(s @ y)
+    return B
+
+
+def evaluate_insitu(case: Dict[str, Any]) -> Dict[str, Any]:
+    """the subspace step inside real runs (memory objects reused from one iteration to the next, history
+    rewritten by an update function, rejected pairs): every recorded step against the dense truncated Newton
+    point of the model DEFINED BY THE STORED PAIRS at that moment"""
+    from harness.trace import Run
+    out: Dict[str, Any] = {"corr": None, "skipped": None, "tags": ["kind=insitu"], "prop": []}
+    kw, desc, p = shell.build(case)
+    run = Run(kw).execute()
+    if run.nonfinite():
+        return {"corr": None, "skipped": None, "tags": ["nonfinite-objective-domain"], "prop": []}
+    lb, ub = p.lb, p.ub
+    nchk = 0
+    for k, e in enumerate(run.rec.xbar):
+        if "xbar" not in e or not e["use_factor"] or e["S"].size == 0:
+            continue
+        S, Y = np.atleast_2d(e["S"]), np.atleast_2d(e["Y"])
+        if not (np.einsum("ij,ij->j", S, Y) > 0).all():
+            continue        # an indefinite rewrite: no SPD model to compare with
+        x, g, xc, xbar = e["x"], e["g"], e["x_cp"], np.asarray(e["xbar"], dtype=float)
+        B = dense_from_pairs(S, Y)
+        ev = np.linalg.eigvalsh(0.5 * (B + B.T))
+        cond = float(ev[-1] / max(ev[0], 1e-300))
+        if cond > 1e7 or ev[0] <= 0:
+            continue
+        free = (xc != ub) & (xc != lb)
+        if not free.any():
+            want = xc
+        else:
+            r_ = g + B @ (xc - x)
+            dn = np.zeros(p.n)
+            dn[free] = -np.linalg.solve(B[np.ix_(free, free)], r_[free])
+            with np.errstate(divide="ignore", invalid="ignore"):
+                ratios = np.where(dn > 0, (ub - xc) / dn, np.where(dn < 0, (lb - xc) / dn, np.inf))
+            alpha = min(1.0, float(np.min(ratios[free])))
+            want = np.clip(xc + alpha * dn, lb, ub)
+        tol = 1e-6 * cond * max(1.0, float(np.max(np.abs(want))))
+        nchk += 1
+        if float(np.max(np.abs(xbar - want))) > tol:
+            out["prop"].append({"what": "inside a run: subspace point is not the box-truncated Newton point of the model defined by the stored pairs",
+                                "key": "", "detail": {"iteration": k, "err": float(np.max(np.abs(xbar - want))), "tol": tol,
+                                                      "pairs": int(S.shape[1]), "free": int(free.sum()),
+                                                      "rejected_pairs_in_run": sum(1 for c in run.rec.curv if not c["accepted"])}})
+            break
+    out["tags"] += [f"steps_checked<={5 * ((nchk + 4) // 5)}", f"update={desc['features']['update']}",
+                    f"pairs_rejected={any(not c['accepted'] for c in run.rec.curv)}"]
+    if run.exc is not None and not run.user_raised() and desc["features"]["update"] not in ("indef", "break"):
+        out["prop"].append({"what": f"run raises {type(run.exc).__name__}: {str(run.exc)[:100]}", "key": ""})
+    if nchk >= 2:
+        out["nontrivial"] = f"insitu:{case['seed']}"
+    return out
+
+
 def evaluate(case: Dict[str, Any]) -> Dict[str, Any]:
+    if case.get("kind") == "insitu":
+        return evaluate_insitu(case)
     from lbfgsb.cauchy import get_cauchy_point
     from lbfgsb.subspacemin import get_freev, subspace_minimization
     out: Dict[str, Any] = {"corr": None, "skipped": None, "tags": [], "prop": []}
@@ -112,12 +178,25 @@ def run(tier: str, seed: int) -> int:
             cases.append({"seed": seed * 1_000_003 + k, "pattern": list(pat), "perturb": bool(k % 2)})
             k += 1
     cases += [{"seed": seed * 1_000_003 + k + i, "perturb": bool(i % 3 == 0), "near": bool(i % 6 == 0)} for i in range(nrand)]
+    nins = 300 if tier == "quick" else 4000
+    for i in range(nins):
+        s_ = seed * 1_000_003 + 800_000 + i
+        rr = random.Random(s_)
+        upd = rr.choice(["none", "rescale", "rescale", "reweight", "reweight", "identity"])
+        cases.append({"seed": s_, "kind": "insitu", "small_budgets": False,
+                      "families": rr.choice([["qp", "qp_quartic"], ["styb", "osc"], ["styb", "osc"], ["bench"], ["bench"], ["rosen"]]),
+                      "box": rr.choice(["both", "both", "mixed", "lower"]),
+                      "features": {"jac": "callable", "callback": "none", "ftarget": "none", "gtol_callable": False, "scaler": "none",
+                                   "update": upd, "consistent": True, "switch_at": rr.randint(1, 6)},
+                      "override": {"maxiter": rr.choice([15, 30, 40]), "maxcor": rr.choice([2, 3, 5, 10]), "ftol": 0.0, "gtol": 1e-9}})
     return run_property(
         PROP, "harness.props.c09", THEOREMS, MODULES, cases, tier, seed,
         rule=f"inputs: the Cauchy point computed by the package (or a feasible perturbation of it, to reach every free/active partition) for "
              f"the structural enumeration n <= {nmax} and {nrand} random inputs n <= 10 with 0..8 pairs; output compared with the dense Newton "
              "solve on the free variables truncated to the box, fixed variables, feasibility, model decrease, descent; and with the Lean "
-             "Float model of the routine",
+             "Float model of the routine; in-situ: every subspace step recorded inside real runs (memory objects reused across iterations, "
+             "histories rewritten by update functions, rejected pairs) against the dense truncated Newton point of the model defined by the "
+             "stored pairs",
         assumptions=["comparisons use a tolerance 1e-7·cond(B); inputs with cond(B) > 1e8 are skipped and counted"])
 
 
